@@ -28,6 +28,8 @@ CONSTANTS Keys,        \* model values (a SYMMETRY set for ChkNext)
           Sizes,       \* value sizes for put
           ShortSizes,  \* value sizes for put_ttl short
           LongSizes,   \* value sizes for put_ttl long
+          EdgeTtls,    \* boundary TTL classes for put_ttl: subset of {"zero", "ns", "max"}
+          EdgeSizes,   \* value sizes for put_ttl with a boundary TTL
           MaxRestarts, MaxTicks,
           Variant,     \* "ideal" | "asis"  (ChkNext only)
           AsIs         \* findings whose defect the as-is machine reproduces (subset of {"F10a","F10b","F10c","F10d"})
@@ -46,7 +48,8 @@ Alphabet ==
   (IF "put" \in OpKinds THEN {[op |-> "put", k |-> k, n |-> n] : k \in Keys, n \in Sizes} ELSE {}) \cup
   (IF "put_ttl" \in OpKinds
    THEN {[op |-> "put_ttl", k |-> k, n |-> n, ttl |-> "short"] : k \in Keys, n \in ShortSizes} \cup
-        {[op |-> "put_ttl", k |-> k, n |-> n, ttl |-> "long"] : k \in Keys, n \in LongSizes} ELSE {}) \cup
+        {[op |-> "put_ttl", k |-> k, n |-> n, ttl |-> "long"] : k \in Keys, n \in LongSizes} \cup
+        {[op |-> "put_ttl", k |-> k, n |-> n, ttl |-> c] : k \in Keys, n \in EdgeSizes, c \in EdgeTtls} ELSE {}) \cup
   (IF "get" \in OpKinds THEN KeyOps("get") ELSE {}) \cup
   (IF "contains" \in OpKinds THEN KeyOps("contains") ELSE {}) \cup
   (IF "remove" \in OpKinds THEN KeyOps("remove") ELSE {}) \cup
